@@ -44,14 +44,14 @@ func genDefsCase(t *rapid.T) DefsCase {
 
 var (
 	worldID  atomic.Int64
-	globalRe = regexp.MustCompile(`\bz(fl|pn|p|c|g)([a-z]?[0-9]+)\b`)
+	globalRe = regexp.MustCompile(`\b(a?)z(fl|pn|p|c|g)([a-z]?[0-9]+)\b`)
 )
 
 func nextID() string { return fmt.Sprintf("u%06d", worldID.Add(1)) }
 
 // withID gives the global names of a generated text a process unique suffix.
 func withID(text, id string) string {
-	return globalRe.ReplaceAllString(text, "z${1}${2}"+id)
+	return globalRe.ReplaceAllString(text, "${1}z${2}${3}"+id)
 }
 
 type target struct {
